@@ -516,6 +516,13 @@ pub broadcast proof fn lemma_pick_ok_ok(t: Tree, ls: Tree, r: Tree, n: int)
 {
     lemma_pick_ok_props(t, ls, r, n);
 }
+/// variant of `lemma_pick_ok_ok` that needs no level bound
+pub broadcast proof fn lemma_pick_ok_top(t: Tree, ls: Tree, r: Tree)
+    requires wf(t), #[trigger] pick_ok(t, ls, r),
+    ensures top(r) >= top(t), (r == ff()) <==> (t == ff()),
+{
+    match t { Tree::Leaf(_) => {} Tree::Inner(l, a, b) => { match r { Tree::Leaf(_) => {} Tree::Inner(rl, ra, rb) => {} } } }
+}
 pub broadcast proof fn lemma_lit_pol_mk(k: u32, a: Tree, b: Tree, l: int)
     ensures #[trigger] lit_pol(mk(k, a, b), l) == (if k as int == l { Some(b == ff()) } else if (k as int) < l { lit_pol(next_lit(a, b), l) } else { None }),
 {}
@@ -614,7 +621,7 @@ pub broadcast proof fn lemma_lpopped_id(ls: Tree, until: int)
     requires top(ls) >= until,
     ensures #[trigger] lpopped(ls, until) == ls,
 {}
-pub broadcast group pick_lemmas { lemma_pick_ok_mk, lemma_pick_ok_leaf, lemma_pick_ok_ok, lemma_lit_pol_mk, lemma_lit_pol_leaf, lemma_pick_ok_lpopped, lemma_pick_ok_step, lemma_lit_pol_lpopped_b, lemma_lpopped_mk, lemma_lpopped_id, lemma_lpopped_ok }
+pub broadcast group pick_lemmas { lemma_pick_ok_top, lemma_pick_ok_mk, lemma_pick_ok_leaf, lemma_pick_ok_ok, lemma_lit_pol_mk, lemma_lit_pol_leaf, lemma_pick_ok_lpopped, lemma_pick_ok_step, lemma_lit_pol_lpopped_b, lemma_lpopped_mk, lemma_lpopped_id, lemma_lpopped_ok }
 // ---------- structural view: complement-edge terms ----------
 /// a NODE: the single terminal ⊤ or an inner node with its two stored child EDGES
 pub enum CN { One, Inner(u32, Box<CE>, Box<CE>) }
@@ -820,10 +827,13 @@ pub broadcast proof fn lemma_cxor_ct(n: bool, b: bool)
     ensures #[trigger] cxor(ct(n), b) == ct(n != b), {}
 pub broadcast proof fn lemma_cflip_ct(n: bool)
     ensures #[trigger] cflip(ct(n)) == ct(!n), {}
+pub broadcast proof fn lemma_cwith_self(c: CE, b: bool)
+    requires b == c.neg,
+    ensures #[trigger] cwith(c, b) == c, {}
 /// what the apply algorithms need: one unfolding step of each recursive spec function over the constructors, and the
 /// algebra of tags
 pub broadcast group ce_core { lemma_csem_cmk, lemma_csem_ct, lemma_csem_cxor, lemma_csem_cflip, lemma_csem_cwith, lemma_nwf_nmk, lemma_nbelow_nmk, lemma_nwf_one, lemma_nbelow_one,
-    lemma_cwith_cmk, lemma_cxor_cmk, lemma_cflip_cmk, lemma_cwith_ct, lemma_cxor_ct, lemma_cflip_ct }
+    lemma_cwith_cmk, lemma_cxor_cmk, lemma_cflip_cmk, lemma_cwith_ct, lemma_cxor_ct, lemma_cflip_ct, lemma_cwith_self }
 
 // link to the plain-BDD lemma libraries: the expansion `tv` over the constructors, wf / top / below of the expansion
 pub broadcast proof fn lemma_tv_cmk(n: bool, l: u32, t: CE, e: CE)
@@ -1646,6 +1656,70 @@ where M: Manager<EdgeTag = EdgeTag, Terminal = BCDDTerminal> + HasApplyCache<M, 
     ensures res is Ok ==> apply_quant_post(O_XOR, bo_code(op), lhs.cv(), rhs.cv(), vars.cv(), manager.num_levels_spec(), res->Ok_0.cv()),
 //@end
 } // mod apply_rec_d
+
+mod apply_rec_r {
+use super::*;
+use super::apply_rec::*;
+broadcast use {ce_core, ce_tree, restrict_lemmas, subst_lemmas};
+//@item file=crates/oxidd-rules-bdd/src/complement_edge/apply_rec.rs path=fn:restrict/enum:InnerResult rename=restrict__InnerResult
+//@end
+// NOT UNDER PROOF (extractor limitation: the body uses a labelled block `'ret_f: { .. break 'ret_f v; .. }`, which the
+// installed Verus rejects and no rewrite rule covers): the contract below is ASSUMED for `restrict`.
+// `f_neg` / `vars_neg` are the effective tags: the function restricted is `cwith(f, f_neg)`, the cube `cwith(vars, vars_neg)`.
+//@fn file=crates/oxidd-rules-bdd/src/complement_edge/apply_rec.rs path=fn:restrict/fn:inner rename=restrict__inner subst=InnerResult>restrict__InnerResult mode=stub props=C04
+//@spec
+    requires edge_ok::<M::Edge>(), okc(f.cv(), manager.num_levels_spec()), okc(vars.cv(), manager.num_levels_spec()),
+        f.cv() == cmk(f.cv().neg, fnode.level_spec(), fnode.then_c(), fnode.else_c()), flevel == fnode.level_spec(),
+        vars.cv() == cmk(vars.cv().neg, vnode.level_spec(), vnode.then_c(), vnode.else_c()),
+    ensures match res {
+        restrict__InnerResult::Done(r) => okc(r.cv(), manager.num_levels_spec()) && ctop(r.cv()) >= ctop(f.cv())
+            && forall|env: Env| #[trigger] csem(r.cv(), env) == csem(cwith(f.cv(), f_neg), cenv(tv(cwith(vars.cv(), vars_neg)), env)),
+        restrict__InnerResult::Rec { vars: v2, f: f2, f_neg: fn2, fnode: fnode2 } =>
+            f2.cv() == cmk(f2.cv().neg, fnode2.level_spec(), fnode2.then_c(), fnode2.else_c())
+            && okc(f2.cv(), manager.num_levels_spec()) && okc(v2.cv(), manager.num_levels_spec())
+            && v2.cv().node is Inner && ctop(v2.cv()) > ctop(f2.cv()) && ctop(f2.cv()) >= ctop(f.cv())
+            && forall|env: Env| csem(cwith(f2.cv(), fn2), cenv(tv(v2.cv()), env)) == #[trigger] csem(cwith(f.cv(), f_neg), cenv(tv(cwith(vars.cv(), vars_neg)), env)),
+    },
+//@end
+//@fn file=crates/oxidd-rules-bdd/src/complement_edge/apply_rec.rs path=fn:restrict hoist=inner>restrict__inner,InnerResult>restrict__InnerResult nodecr expect=R5:1 props=C04,C06 vis=pub
+//@spec
+    requires edge_ok::<M::Edge>(), okc(f.cv(), manager.num_levels_spec()), okc(vars.cv(), manager.num_levels_spec()),
+    ensures res is Ok ==> restrict_post(f.cv(), vars.cv(), manager.num_levels_spec(), res->Ok_0.cv()),
+//@end
+//@fn file=crates/oxidd-rules-bdd/src/complement_edge/apply_rec.rs path=impl:BooleanFunction~for~BCDDFunction<F>/fn:restrict_edge props=C04
+//@header
+fn restrict_edge<M>(manager: &M, root: &M::Edge, vars: &M::Edge) -> (res: AllocResult<M::Edge>)
+where M: Manager<EdgeTag = EdgeTag, Terminal = BCDDTerminal> + HasApplyCache<M, BCDDOp>, M::InnerNode: HasLevel,
+//@spec
+    requires edge_ok::<M::Edge>(), okc(root.cv(), manager.num_levels_spec()), okc(vars.cv(), manager.num_levels_spec()),
+    ensures res is Ok ==> restrict_post(root.cv(), vars.cv(), manager.num_levels_spec(), res->Ok_0.cv()),
+//@end
+//@fn file=crates/oxidd-rules-bdd/src/complement_edge/apply_rec.rs path=fn:substitute nodecr expect=R5:1,R11:1 props=C04,C06 vis=pub
+//@spec
+    requires edge_ok::<M::Edge>(), okc(f.cv(), manager.num_levels_spec()), all_ok(subst@, manager.num_levels_spec()),
+        eviews(subst@) == subst_of(cache_id),
+    ensures res is Ok ==> subst_post(f.cv(), eviews(subst@), manager.num_levels_spec(), res->Ok_0.cv()),
+//@end
+} // mod apply_rec_r
+
+mod apply_rec_p {
+use super::*;
+broadcast use {ce_core, ce_tree, cpop_lemmas, pick_lemmas};
+//@fn file=crates/oxidd-rules-bdd/src/complement_edge/apply_rec.rs path=impl:BooleanFunction~for~BCDDFunction<F>/fn:pick_cube_dd_edge/fn:inner rename=pick_cube_dd_edge__inner props=C13
+//@spec
+    requires edge_ok::<M::Edge>(), okc(edge.cv(), manager.num_levels_spec()),
+        // the choice function may be consulted only with a node whose two cofactors are both satisfiable, and with that node's level
+        forall|mm: &M, ee: &M::Edge, l: LevelNo| (tv(ee.cv()) matches Tree::Inner(k, a, b) && k == l && *a != ff() && *b != ff()) ==> #[trigger] choice.requires((mm, ee, l)),
+    ensures res is Ok ==> pick_ok(tv(edge.cv()), Tree::Leaf(true), tv(res->Ok_0.cv())) && okc(res->Ok_0.cv(), manager.num_levels_spec()),
+    decreases u32::MAX as int - ctop(edge.cv()),
+//@end
+//@fn file=crates/oxidd-rules-bdd/src/complement_edge/apply_rec.rs path=impl:BooleanFunction~for~BCDDFunction<F>/fn:pick_cube_dd_set_edge/fn:inner rename=pick_cube_dd_set_edge__inner props=C13
+//@spec
+    requires edge_ok::<M::Edge>(), okc(edge.cv(), manager.num_levels_spec()), okc(literal_set.cv(), manager.num_levels_spec()),
+    ensures res is Ok ==> pick_ok(tv(edge.cv()), tv(literal_set.cv()), tv(res->Ok_0.cv())) && okc(res->Ok_0.cv(), manager.num_levels_spec()),
+    decreases u32::MAX as int - ctop(edge.cv()),
+//@end
+} // mod apply_rec_p
 } // mod complement_edge
 } // verus!
 fn main() {}
